@@ -1,0 +1,111 @@
+//go:build verif
+
+package rueidis
+
+import (
+	"context"
+	"sync"
+	"sync/atomic"
+)
+
+// Recording versions of the verification trace hooks.  Every event gets a global sequence number
+// under one recorder mutex; hooks that sit inside a critical section of the code under test
+// (slot lock / pool mutex) therefore appear in the trace in the order of the critical sections.
+
+type VerifEvent struct {
+	Seq  int
+	Kind int
+	A, B int
+}
+
+var verifRec struct {
+	mu  sync.Mutex
+	on  bool
+	evs []VerifEvent
+}
+
+var verifYieldFn atomic.Value // func(kind, a int)
+
+var (
+	verifChans sync.Map // chan RedisResult -> int
+	verifWires sync.Map // wire (pointer) -> int
+)
+
+func verifEv(kind, a, b int) {
+	verifRec.mu.Lock()
+	if verifRec.on {
+		verifRec.evs = append(verifRec.evs, VerifEvent{Seq: len(verifRec.evs), Kind: kind, A: a, B: b})
+	}
+	verifRec.mu.Unlock()
+}
+
+// verifSeqLock ... verifEvUnlock bracket an operation that cannot block (a send on a channel
+// whose capacity covers all tokens) so that the operation and its event are one atomic unit.
+func verifSeqLock() { verifRec.mu.Lock() }
+
+func verifEvUnlock(kind, a, b int) {
+	if verifRec.on {
+		verifRec.evs = append(verifRec.evs, VerifEvent{Seq: len(verifRec.evs), Kind: kind, A: a, B: b})
+	}
+	verifRec.mu.Unlock()
+}
+
+func verifYield(kind, a int) {
+	if f, ok := verifYieldFn.Load().(func(kind, a int)); ok && f != nil {
+		f(kind, a)
+	}
+}
+
+func verifB(b bool) int {
+	if b {
+		return 1
+	}
+	return 0
+}
+
+type verifTidKey struct{}
+
+func verifTid(ctx context.Context) int {
+	if v, ok := ctx.Value(verifTidKey{}).(int); ok {
+		return v
+	}
+	return 0
+}
+
+func verifWid(w wire) int {
+	switch v := w.(type) {
+	case *VerifWire:
+		return v.id
+	}
+	if id, ok := verifWires.Load(w); ok {
+		return id.(int)
+	}
+	return VerifCtxDeadID
+}
+
+func verifCmdID(m Completed) int { return VerifCmdID(m) }
+
+func verifSlot(r *ring, n *node) int {
+	for i := range r.store {
+		if &r.store[i] == n {
+			return i
+		}
+	}
+	return -1
+}
+
+func verifCondSlot(r *ring, c *sync.Cond) int {
+	for i := range r.store {
+		if r.store[i].c1 == c {
+			return i
+		}
+	}
+	return -1
+}
+
+func verifChID(ch chan RedisResult) int {
+	if id, ok := verifChans.Load(ch); ok {
+		return id.(int)
+	}
+	return -1
+}
